@@ -3,6 +3,7 @@ package rules
 import (
 	"go/ast"
 	"go/token"
+	"go/types"
 	"sort"
 	"strconv"
 	"strings"
@@ -378,4 +379,65 @@ func parentName(n *mimeNode) string {
 		return "none"
 	}
 	return n.parent.mime
+}
+
+func init() {
+	register(&core.Rule{ID: "R-DEDUPE-EXACT", Props: []string{"C19"}, Doc: "utils.DedupeStrings, through which extractor.XML passes the URLs found in a text node, merges only identical strings: the key it looks up and records is the slice element itself, not a transformation of it (lower-casing, trimming, parsing) — URL paths and queries are case-sensitive, a folded key silently drops every URL that differs from an earlier one only by case", Run: ruleDedupeExact})
+}
+
+func ruleDedupeExact(r *core.Reporter) {
+	p := r.P
+	fn := p.Func(rel(pkgUtils), "DedupeStrings")
+	if fn == nil {
+		r.Held("utils.DedupeStrings/absent", 0, "no such helper")
+		return
+	}
+	// only armed while an extractor uses it
+	used := false
+	for _, f := range p.FuncsInPkg(rel(pkgExtractor)) {
+		for _, g := range withAnon(f) {
+			allInstrs(g, func(in ssa.Instruction) {
+				if cc := ir.AsCall(in); cc != nil && cc.StaticCallee() == fn {
+					used = true
+				}
+			})
+		}
+	}
+	if !used {
+		r.Held("utils.DedupeStrings/not-used-by-extractors", 0, "no extractor de-duplicates with it")
+		return
+	}
+	r.Analysed(fn)
+	var keys []ssa.Value
+	var at ssa.Instruction
+	allInstrs(fn, func(in ssa.Instruction) {
+		switch x := in.(type) {
+		case *ssa.Lookup:
+			if _, isMap := x.X.Type().Underlying().(*types.Map); isMap {
+				keys = append(keys, x.Index)
+				at = in
+			}
+		case *ssa.MapUpdate:
+			keys = append(keys, x.Key)
+			at = in
+		}
+	})
+	if len(keys) == 0 {
+		r.Undecided("utils.DedupeStrings/key", fnPos(p, fn), "no map lookup/update found: the de-duplication is done in a form the checker does not know")
+		return
+	}
+	for _, k := range keys {
+		v := ir.Strip(k)
+		isElem := false
+		if u, ok := v.(*ssa.UnOp); ok && u.Op == token.MUL {
+			if ia, ok := u.X.(*ssa.IndexAddr); ok && len(fn.Params) > 0 && ir.SameValue(ia.X, fn.Params[0]) {
+				isElem = true
+			}
+		}
+		if !isElem {
+			r.Violated("utils.DedupeStrings/key", p.InstrPos(at), "the de-duplication key is %s, not the string itself: two different URLs that map to the same key (case-folded, trimmed …) are merged and one is lost from the extractor's result", ir.Path(k))
+			return
+		}
+	}
+	r.Held("utils.DedupeStrings/key", len(keys), "lookup and record are keyed on the element itself")
 }
